@@ -529,6 +529,8 @@ def run_C17(run):
                ("Word(1.5)", 'InvalidArgumentTypeException'), ("Word(1, 2.5)", 'InvalidArgumentTypeException'),
                ("Word(None)", 'InvalidArgumentTypeException'),
                ("WordContains(1)", 'InvalidArgumentTypeException'), ("WordContains(['a', 1])", 'InvalidArgumentTypeException'),
+               ("WordContains([('ab', 'cd')])", 'InvalidArgumentTypeException'), ("WordStartsWith([()])", 'InvalidArgumentTypeException'), ("WordEndsWith(['a', ('b', 'c', 'd')])", 'InvalidArgumentTypeException'),
+               ("WordContains([{'a': 1}])", 'InvalidArgumentTypeException'), ("WordStartsWith([b'ab'])", 'InvalidArgumentTypeException'), ("WordEndsWith([['a', 'b']])", 'InvalidArgumentTypeException'),
                ("WordStartsWith(None)", 'InvalidArgumentTypeException'), ("WordStartsWith([None])", 'InvalidArgumentTypeException'),
                ("WordEndsWith(1.5)", 'InvalidArgumentTypeException'), ("WordEndsWith(['a', ['b']])", 'InvalidArgumentTypeException')]
     T_, V_ = 'InvalidArgumentTypeException', 'InvalidArgumentValueException'
